@@ -340,6 +340,10 @@ def ref_line(state, line):
 
 # ------------------------------------------------------------------ generators
 
+# indices at which size_t arithmetic wraps (finding S43: replace(SIZE_MAX) was accepted)
+HUGE = (2 ** 64 - 1, 2 ** 64 - 2, 2 ** 63, 2 ** 63 - 1, 2 ** 32, 2 ** 32 - 1, 2 ** 31)
+
+
 def ring_scripts(ctx):
     out = []
     depth = 6 if ctx.tier == "quick" else 7
@@ -388,9 +392,9 @@ def ring_scripts(ctx):
             elif r < 0.72:
                 sc.append("ring shift"); n = max(n - 1, 0)
             elif r < 0.82:
-                sc.append("ring get %d" % rng.randint(0, n + 1))
+                sc.append("ring get %d" % (rng.choice(HUGE) if rng.random() < 0.06 else rng.randint(0, n + 1)))
             elif r < 0.92:
-                sc.append("ring replace %d %d" % (rng.randint(0, n + 1), rng.randint(1, 999)))
+                sc.append("ring replace %d %d" % (rng.choice(HUGE) if rng.random() < 0.06 else rng.randint(0, n + 1), rng.randint(1, 999)))
             elif r < 0.95:
                 sc.append("ring clear"); n = 0
             elif r < 0.97:
